@@ -106,9 +106,9 @@ TInvokeCall ==
 TInvokeRet ==
     /\ Is("InvokeRet")
     /\ CallerReturnEn(st, T.caller)
-    /\ st.cl[T.caller].k = T.k
-    /\ st.cl[T.caller].out = T.out
-    /\ st.cl[T.caller].body = T.body
+    /\ st.busy[T.caller] = T.k
+    /\ st.iv[T.k].out = T.out
+    /\ st.iv[T.k].body = T.body
     \* the timer runs for the configured function timeout; every invocation is answered within
     \* timeout + reset allowance (2 s) + exit grace (2 s) + slack
     /\ (T.out = "InvokeTimeout" => T.dur >= st.timeoutMs)
@@ -176,21 +176,28 @@ Internal ==
        \/ Step(AwaitRuntimeBackEn(st), AwaitRuntimeBackDo(st))
        \/ Step(AwaitAgentsBackEn(st), AwaitAgentsBackDo(st))
        \/ Step(InvokeReturnEn(st), InvokeReturnDo(st))
-       \/ \E c \in Callers :
-            \/ Step(CallerReserveEn(st, c), CallerReserveDo(st, c))
-            \/ Step(CallerAwaitInitEn(st, c), CallerAwaitInitDo(st, c))
-            \/ Step(CallerShutdownEn(st, c), CallerShutdownDo(st, c))
-            \/ Step(CallerShutdownDoneEn(st, c), CallerShutdownDoneDo(st, c))
-            \/ Step(CallerFastInvokeEn(st, c), CallerFastInvokeDo(st, c))
-            \/ Step(CallerDoneOkEn(st, c), CallerDoneOkDo(st, c))
-            \/ Step(CallerDoneFailEn(st, c), CallerDoneFailDo(st, c))
-            \/ Step(CallerTimeoutEn(st, c) /\ (st.strictTimer => ~Urgent(st)), CallerTimeoutDo(st, c))
-            \/ Step(CallerAfterResetEn(st, c), CallerAfterResetDo(st, c))
-       \/ Step(ResetCancelEn(st), ResetCancelDo(st))
-       \/ Step(ResetLockEn(st), ResetLockDo(st))
-       \/ Step(ResetFinishEn(st), ResetFinishDo(st))
-       \/ Step(ResetClearEn(st), ResetClearDo(st))
-       \/ Step(ResetServerClearEn(st), ResetServerClearDo(st))
+       \/ \E k \in DOMAIN st.iv :
+            \/ Step(MainBeginEn(st, k), MainBeginDo(st, k))
+            \/ Step(RelReserveEn(st, k), RelReserveDo(st, k))
+            \/ Step(FioAwaitInitEn(st, k), FioAwaitInitDo(st, k))
+            \/ Step(FioShutdownEn(st, k), FioShutdownDo(st, k))
+            \/ Step(FioShutdownDoneEn(st, k), FioShutdownDoneDo(st, k))
+            \/ Step(FioFastInvokeEn(st, k), FioFastInvokeDo(st, k))
+            \/ Step(FiiStartEn(st, k), FiiStartDo(st, k))
+            \/ Step(FiiDefaultErrorEn(st, k), FiiDefaultErrorDo(st, k))
+            \/ Step(FiiSendDoneEn(st, k), FiiSendDoneDo(st, k))
+            \/ Step(RelAwaitEn(st, k), RelAwaitDo(st, k))
+            \/ Step(RelAfterResetEn(st, k), RelAfterResetDo(st, k))
+            \/ Step(MainGotResultEn(st, k), MainGotResultDo(st, k))
+            \/ Step(MainTimeoutEn(st, k) /\ (st.strictTimer => ~Urgent(st)), MainTimeoutDo(st, k))
+            \/ Step(MainAfterResetEn(st, k), MainAfterResetDo(st, k))
+            \/ Step(MainAfterTimeoutEn(st, k), MainAfterTimeoutDo(st, k))
+       \/ \E x \in DOMAIN st.rs :
+            \/ Step(ResetCancelEn(st, x), ResetCancelDo(st, x))
+            \/ Step(ResetLockEn(st, x), ResetLockDo(st, x))
+            \/ Step(ResetFinishEn(st, x), ResetFinishDo(st, x))
+            \/ Step(ResetClearEn(st, x), ResetClearDo(st, x))
+            \/ Step(ResetServerClearEn(st, x), ResetServerClearDo(st, x))
        \/ Step(ShutBeginEn(st), ShutBeginDo(st))
        \/ Step(ShutRuntimeExitedEn(st), ShutRuntimeExitedDo(st))
        \/ Step(ShutAgentsEn(st), ShutAgentsDo(st))
